@@ -36,6 +36,7 @@ RULE = (
     "abstract trace signatures."
      " Later rounds added: list/tuple support points, class sizes 41-130 and 280-420, float32/unsigned dtypes, re-entrant and raising samplers (exception types), "
     "user-subclass sources with their own bootstrap_sample, unhashable samplers, callable sampler x stratification flag, resample-count check, state-leak probes, alpha up to 0.95."
+    " Round 14: the fine user grid reaches 2100-2700 support points every other time, with identity or recorded resamples."
 )
 COMPONENTS = {
     "real": ["roc_curve.roc_with_ci, _find_support_thresholds, _apply_rule_of_three, _aggregate_rectangles, experimental.roc_ci.* "
@@ -173,10 +174,10 @@ def generate(rnd, tier):
                 "sampler": {"callable": "recording", "inner": {"sampling_method": "replacement", "stratified_sampling": rnd.choice([None, "by_label"])}},
                 "cfg": {"nb_samples": rnd.randint(4, 25), "bootstrap_method": rnd.choice(["quantile", "bca"])}, "arg_types": {}}
                for _ in range(rnd.randint(1, 2))]
-    if rnd.random() < 0.01:
+    if rnd.random() < 0.007:
         # a very fine user grid (more than a thousand, every other time more than 2048 support points: beyond any block size a
         # vectorised envelope would use) on a small data set, identity sampler or recorded resamples
-        lo_, n_ = round(rnd.uniform(-8, -4), 2), rnd.choice([rnd.randint(1050, 1600), rnd.randint(2100, 3300)])
+        lo_, n_ = round(rnd.uniform(-8, -4), 2), rnd.choice([rnd.randint(1050, 1600), rnd.randint(2100, 2700)])
         smp_ = rnd.choice([{"callable": "identity"}, {"callable": "identity"},
                            {"callable": "recording", "inner": {"sampling_method": "replacement", "stratified_sampling": rnd.choice([None, "by_label"])}}])
         ops.append({"op": "band", "fn": rnd.choice(["roc_with_ci", "roc_with_ci", "simultaneous_joint_region_ci"]),
